@@ -48,7 +48,9 @@
 
 #define VALIDATE_CONTAINER_SQL "select 1 from container where id = ?"
 
-#define DESTROY_CONTAINER_SQL "delete from container where id = ?"
+#define DESTROY_CONTAINER_SQL "with recursive doomed(id) as (" \
+        "select ?1 union all select sf.container_id from save_frame sf join doomed on sf.parent_id = doomed.id) " \
+        "delete from container where id in (select id from doomed)"
 
 #define CREATE_LOOP_SQL "insert into unnumbered_loop (container_id, category) values (?, ?)"
 
